@@ -418,10 +418,18 @@ func (e *SpecEnv) evalQuant(n *EQuant) SVal {
 	if lok && hok && hc-lc <= 4096 {
 		var acc []*Term
 		sum := SVal{C: big.NewInt(0)}
+		var catParts []StrVal
 		for i := lc; i < hc; i++ {
 			sub := e.clone()
 			sub.vars[n.Var] = SVal{C: big.NewInt(i)}
 			switch n.Kind {
+			case "cat":
+				v := sub.eval(n.Body)
+				if c, ok := v.V.(SeqCat); ok {
+					catParts = append(catParts, c.Parts...)
+				} else {
+					catParts = append(catParts, e.x.seqView(e.st(), v.V))
+				}
 			case "forall", "exists":
 				acc = append(acc, sub.evalBool(n.Body))
 			case "sum":
@@ -435,11 +443,13 @@ func (e *SpecEnv) evalQuant(n *EQuant) SVal {
 			return SVal{V: o.And(acc...), T: typBool}
 		case "exists":
 			return SVal{V: o.Or(acc...), T: typBool}
+		case "cat":
+			return SVal{V: SeqCat{Parts: catParts}, T: typString}
 		default:
 			return sum
 		}
 	}
-	if n.Kind == "sum" || n.Kind == "bitor" {
+	if n.Kind == "sum" || n.Kind == "bitor" || n.Kind == "cat" {
 		sfail("%s needs constant bounds", n.Kind)
 	}
 	bv := o.BoundVar(n.Var, o.IdxSort())
@@ -1000,6 +1010,16 @@ func (e *SpecEnv) evalCall(n *ECall) SVal {
 			return SVal{V: tv.UTCMid, T: typBool}
 		}
 		return SVal{V: tv.Zero, T: typBool}
+	case "mathint":
+		// the mathematical value of an integer expression (no wrap-around; int mode)
+		v := arg(0)
+		if v.C != nil {
+			return v
+		}
+		if o.M.BV {
+			sfail("mathint is only available in int mode")
+		}
+		return SVal{V: v.V, T: typInt}
 	case "bool2int":
 		return SVal{V: o.Ite(e.evalBool(n.Args[0]), o.Idx(1), o.Idx(0)), T: typInt}
 	}
